@@ -39,7 +39,7 @@ fn enumerate(bytes: &[u8], cuts: &mut dyn Iterator<Item = usize>, what: &str, re
 }
 
 pub fn run(ctx: &Ctx) -> i32 {
-    let nfiles = ctx.tier.pick(400u64, 8_000u64);
+    let nfiles = ctx.tier.pick(2_000u64, 20_000u64);
     let mut sum = run_cases(ctx, nfiles, |i| {
         let mut rng = Rng::derive(ctx.seed, "C13", i);
         let mut cfg = GenCfg::small();
